@@ -190,7 +190,12 @@ func (f *ruleFactory) createExecutePipeline(
 					"an authenticator is defined after some other non authenticator type")
 			}
 
-			authenticator, err := f.hf.CreateAuthenticator(version, id.(string), getConfig(pipelineStep["config"]))
+			ref, conf, err := getReference("authenticator", id, pipelineStep["config"])
+			if err != nil {
+				return nil, nil, nil, err
+			}
+
+			authenticator, err := f.hf.CreateAuthenticator(version, ref, conf)
 			if err != nil {
 				return nil, nil, nil, err
 			}
@@ -246,14 +251,17 @@ func (f *ruleFactory) createOnErrorPipeline(
 	for _, ehStep := range ehConfigs {
 		id, found := ehStep["error_handler"]
 		if found {
-			conf := getConfig(ehStep["config"])
+			ref, conf, err := getReference("error_handler", id, ehStep["config"])
+			if err != nil {
+				return nil, err
+			}
 
 			condition, err := getExecutionCondition(ehStep["if"])
 			if err != nil {
 				return nil, err
 			}
 
-			handler, err := f.hf.CreateErrorHandler(version, id.(string), conf)
+			handler, err := f.hf.CreateErrorHandler(version, ref, conf)
 			if err != nil {
 				return nil, err
 			}
@@ -341,12 +349,37 @@ func createHandler[T subjectHandler](
 		return nil, err
 	}
 
-	handler, err := creteHandler(version, id.(string), getConfig(configMap["config"]))
+	ref, conf, err := getReference(handlerType, id, configMap["config"])
+	if err != nil {
+		return nil, err
+	}
+
+	handler, err := creteHandler(version, ref, conf)
 	if err != nil {
 		return nil, err
 	}
 
 	return &conditionalSubjectHandler{h: handler, c: condition}, nil
+}
+
+// getReference checks the types of a pipeline step: the mechanism is referenced by its id, a string, and the
+// optional config is a map. Rule sets come from files, endpoints and buckets and are reloaded at run time, so
+// anything else is a reason to reject the rule set, not to panic.
+func getReference(handlerType string, id any, conf any) (string, config.MechanismConfig, error) {
+	ref, ok := id.(string)
+	if !ok {
+		return "", nil, errorchain.NewWithMessagef(heimdall.ErrConfiguration,
+			"unexpected type '%T' for the %s reference", id, handlerType)
+	}
+
+	if conf != nil {
+		if _, ok = conf.(map[string]any); !ok {
+			return "", nil, errorchain.NewWithMessagef(heimdall.ErrConfiguration,
+				"unexpected type '%T' for the config of %s '%s'", conf, handlerType, ref)
+		}
+	}
+
+	return ref, getConfig(conf), nil
 }
 
 func getConfig(conf any) config.MechanismConfig {
